@@ -87,6 +87,9 @@ func genC19(t *rapid.T) C19Case {
 		alphabet = []float64{0, math.Copysign(0, -1), 1, -1}
 	case 2: // different labels whose differences (and their squares) are far below anything ordinary
 		alphabet = []float64{1e-200, 2e-200, 0, -3e-180, 3e-180, 1e-170}
+	case 3: // labels that other frameworks reserve (ignore index, padding, void class): ordinary labels here
+		alphabet = []float64{-100, -1, 255, 0, 1, -99}
+		evid.Class("C19.labels_reserved_elsewhere")
 	}
 	n := rapid.IntRange(0, 12).Draw(t, "nsteps")
 	if rapid.IntRange(0, 9).Draw(t, "longhistory") == 0 {
